@@ -133,11 +133,14 @@ impl AsHooked for Option<&Hooked> {
 pub enum Flavor {
     Current,
     Multi(usize),
+    /// Current-thread runtime that is torn down the moment the operation returns, like a process
+    /// that exits: tasks the operation spawned and left behind never run.
+    CurrentExitAtOnce,
 }
 
 fn build_rt(flavor: Flavor) -> tokio::runtime::Runtime {
     match flavor {
-        Flavor::Current => tokio::runtime::Builder::new_current_thread()
+        Flavor::Current | Flavor::CurrentExitAtOnce => tokio::runtime::Builder::new_current_thread()
             .enable_all()
             .build()
             .unwrap(),
@@ -223,6 +226,10 @@ where
         }
     };
     let mut drained = true;
+    if flavor == Flavor::CurrentExitAtOnce {
+        rt.shutdown_background();
+        return end;
+    }
     if !crashed {
         // Let tasks spawned from destructors (the GC lock's unlock-on-drop) finish.
         let r = catch_unwind(AssertUnwindSafe(|| {
